@@ -190,6 +190,10 @@ impl ExecutorInner {
         if let Err(payload) = result {
             let model_id = CURRENT_MODEL_ID.take();
 
+            // In case this executor is nested in another one, hand its counter
+            // of in-flight messages back.
+            channel::THREAD_MSG_COUNT.set(msg_count_stash);
+
             return Err(ExecutorError::Panic(model_id, payload));
         }
 
